@@ -307,23 +307,38 @@ def mono_problems(a, b):
     return p
 
 
+def _partial_resubmit(op, before):
+    """input class of a resubmission: some job that is not rerun was never submitted (what
+    `resubmit-jobs --no-missing` hands over after a canceled / force-completed submission)"""
+    return any(j["state"] == "not_submitted" and j["name"] not in op["rerun"] for j in before["jobs"])
+
+
 def history_problems(ops, snaps, err, rows_after=None):
-    """Oracles for a history whose operations satisfy the round preconditions (valid generator).
-    rows_after[i] = names with a result row after op i (ghost, maintained by the generator)."""
+    """Oracles for a history whose operations satisfy the preconditions real callers guarantee.
+    rows_after[i] = names with a result row after op i.  -> list of (signature, message)"""
     p = []
     if err is not None:
         p.append(("valid-op-exception", f"operation {len(snaps) - 1} ({ops[len(snaps) - 1]['op']}) raised {err}"))
     base = 0
+    partial = False
     for i, s in enumerate(snaps):
         rows = rows_after[i] if rows_after is not None else None
-        for sig, msg in inv_problems(s, rows):
-            p.append(("status-inv:" + sig, f"after op {i}: {msg}"))
         if i > 0 and ops[i - 1]["op"] == "resubmit":
             base = i
+            partial = partial or _partial_resubmit(ops[i - 1], snaps[i - 1])
             if s["is_complete"]:
                 p.append(("resubmit-still-complete", "is_complete still true after prepare_for_resubmission"))
             if not (s["cfg_version"] > snaps[i - 1]["cfg_version"] and s["js_version"] > snaps[i - 1]["js_version"]):
                 p.append(("resubmit-version", "prepare_for_resubmission did not increase both versions"))
+        inv = inv_problems(s, rows)
+        counted = [x for x in inv if x[0] in ("submitted-count", "counters-order")]
+        if counted and partial:
+            # one signature for everything that follows from a miscounting resubmission of this class
+            p.append(("status-inv:submitted-count@resubmit-partial",
+                      f"after op {i} (a resubmission left never-submitted jobs out of the rerun set before): {counted[0][1]}"))
+            return p
+        for sig, msg in inv:
+            p.append(("status-inv:" + sig, f"after op {i}: {msg}"))
         for k in sorted({base, max(base, i - 1)}):
             if k < i:
                 for sig, msg in mono_problems(snaps[k], s):
@@ -437,22 +452,24 @@ def gen_valid_round(rng, m, p_complete=0.6):
 
 
 def gen_valid_resubmit(rng, m):
-    """what resubmit_jobs computes with its default options: failed/canceled/missing jobs (here: a
-    random set that contains every job that is not done) closed under 'blocked by a rerun job'"""
-    rerun = {n for n in m.order if m.jobs[n]["state"] != "done" or rng.random() < 0.4}
+    """Mostly what resubmit_jobs computes (a set of jobs closed under 'blocked by a rerun job', blockers
+    = configured blockers that are rerun); the seed set is either everything not done plus some done
+    jobs (default options) or an arbitrary subset (--no-missing / --no-failed / --successful)."""
+    if rng.random() < 0.6:
+        rerun = {n for n in m.order if m.jobs[n]["state"] != "done" or rng.random() < 0.4}
+    else:
+        rerun = {n for n in m.order if rng.random() < 0.4}
     upd = {}
-    changed = True
-    while changed:
-        changed = False
-        for n in m.order:
-            inter = m.deps[n] & rerun
-            if inter:
-                if upd.get(n) != inter:
-                    upd[n] = set(inter)
-                if n not in rerun:
+    if rng.random() < 0.9:
+        changed = True
+        while changed:
+            changed = False
+            for n in m.order:
+                if m.deps[n] & rerun and n not in rerun:
                     rerun.add(n)
                     changed = True
-        for n in list(upd):
+    for n in m.order:
+        if n in rerun and m.deps[n] & rerun:
             upd[n] = m.deps[n] & rerun
     return {"op": "resubmit", "rerun": sorted(rerun, key=idx), "upd": {n: sorted(b, key=idx) for n, b in upd.items()}}
 
@@ -675,3 +692,283 @@ def directed_histories():
     out.append(("unknown-submitted", chain[:1], [R(submitted=["zz1"])], False))
     out.append(("complete-never-submitted", chain[:2], [R(completed=["j1"], new_rows=["j1"])], False))
     return out
+
+
+# ---- whole submissions through the real HpcSubmitter / JobSubmitter ---------------------------------------
+def gen_submission_scenario(rng, max_jobs=6):
+    spec = gen_spec(rng, max_jobs)
+    sc = {"jobs": [{"name": j["name"], "deps": j["deps"], "cancel": j["cancel"], "group": "g"} for j in spec],
+          "groups": [{"name": "g", "size": rng.choice([1, 2, 3]), "try": rng.random() < 0.4}],
+          "max_nodes": rng.choice([1, 2, None])}
+    return spec, sc
+
+
+class Submission:
+    """A real submission directory driven the way the CLIs drive it: `submit-jobs` (JobSubmitter.create,
+    Cluster.create, HpcSubmitter.run), `try-submit-jobs` processes (Cluster.deserialize + promote,
+    JobSubmitter.load().submit_jobs -> HpcSubmitter.run -> _handle_completion -> mark_complete, demote),
+    `cancel-jobs`, `resubmit-jobs` (its own helper functions), with a scripted sbatch/squeue/scancel and
+    node results written through the real ResultsAggregator.  Every Cluster call that persists something
+    is recorded as a model operation together with what can be read back afterwards."""
+
+    def __init__(self, spec, sc, tmp, rng):
+        import jade.hpc.slurm_manager as sm
+        from jade.jobs.cluster import Cluster
+        from jade.jobs.job_submitter import JobSubmitter
+        from jade.jobs.results_aggregator import ResultsAggregator
+        self.rng = rng
+        self.spec, self.sc = spec, sc
+        self.out = tempfile.mkdtemp(prefix="sub_", dir=tmp)
+        self.fake = jadeenv.FakeSlurm()
+        self._sm, self._orig = sm, sm.run_command
+        sm.run_command = self.fake
+        self.ops, self.snaps, self.rows_after, self.events = [], [], [], []
+        self.error = None
+        self.batches = {}       # index -> {"jobs": [...], "left": [...], "id": str}
+        cfg = jadeenv.make_config(sc)
+        self.mgr = JobSubmitter.create(cfg, output=self.out)
+        self.cl = Cluster.create(self.out, self.mgr.config)
+        ResultsAggregator.create(self.out)
+        os.makedirs(os.path.join(self.out, "results"), exist_ok=True)
+        self.snaps.append(observe(self.out))
+        self.rows_after.append(self.rows())
+
+    def close(self):
+        self._sm.run_command = self._orig
+        shutil.rmtree(self.out, ignore_errors=True)
+
+    def rows(self):
+        from jade.jobs.results_aggregator import ResultsAggregator
+        return {r.name for r in ResultsAggregator.load(self.out).get_results_unsafe()}
+
+    def record(self, op):
+        self.ops.append(op)
+        self.snaps.append(observe(self.out))
+        self.rows_after.append(self.rows())
+
+    def _instrument(self, cl):
+        """wrap the persisting methods of this live Cluster object so that every call becomes an op"""
+        mem0 = {j.name: (j.state.value, set(j.blocked_by)) for j in cl.job_status.jobs}
+        rows0 = self.rows()
+        orig_update, orig_complete = cl.update_job_status, cl.mark_complete
+
+        def update(submitted, blocked, canceled, completed, hpc_ids, batch_index):
+            pre = []
+            canc = [j.name for j in canceled]
+            for j in cl.job_status.jobs:
+                st0, bl0 = mem0[j.name]
+                if j.name in canc:
+                    continue
+                if j.state.value != st0:
+                    self.events.append(("unexpected-premutation", j.name, st0, j.state.value))
+                if set(j.blocked_by) != bl0:
+                    pre.append(["shrink", j.name, sorted(j.blocked_by, key=idx)])
+            pre += [["cancel", n] for n in canc]
+            order = list(completed)
+            op = {"op": "round", "pre": pre, "submitted": [j.name for j in submitted],
+                  "blocked": [[j.name, sorted(j.blocked_by, key=idx)] for j in blocked], "canceled": canc,
+                  "completed": order, "hpc": list(hpc_ids), "batch": batch_index, "aliased": True}
+            orig_update(submitted, blocked, canceled, completed, hpc_ids, batch_index)
+            op["new_rows"] = sorted(self.rows() - rows0, key=idx)
+            self.record(op)
+            for j in cl.job_status.jobs:
+                mem0[j.name] = (j.state.value, set(j.blocked_by))
+
+        def complete():
+            orig_complete()
+            self.record({"op": "mark_complete"})
+        cl.update_job_status = update
+        cl.mark_complete = complete
+
+    def first_round(self):
+        """jade submit-jobs: the creating process runs the first round itself"""
+        self._instrument(self.cl)
+        self._guard(lambda: self.mgr.submit_jobs(self.cl))
+        if self.error is None:
+            self.cl.demote_from_submitter()
+            self.record({"op": "demote"})
+        self._collect_batches()
+
+    def _guard(self, fn):
+        try:
+            return fn()
+        except Exception as e:  # the submitter round died
+            self.error = type(e).__name__ + ": " + str(e)[:200]
+            _unlock(self.out)
+            marker = os.path.join(self.out, "submitter.lock")
+            if os.path.exists(marker):
+                os.remove(marker)
+            return None
+
+    def load_promote(self):
+        from jade.jobs.cluster import Cluster
+        cl = Cluster.deserialize(self.out, deserialize_jobs=True)[0]
+        self.record({"op": "reload"})
+        promoted = cl.promote_to_submitter()
+        self.record({"op": "promote"})
+        return cl, promoted
+
+    def try_submit(self):
+        """one `jade try-submit-jobs` process"""
+        from jade.jobs.job_submitter import JobSubmitter
+        cl, promoted = self.load_promote()
+        if not promoted:
+            return
+        if cl.is_complete():
+            cl.demote_from_submitter()
+            self.record({"op": "demote"})
+            return
+        self._instrument(cl)
+        mgr = JobSubmitter.load(self.out)
+        self._guard(lambda: mgr.submit_jobs(cl))
+        if self.error is None:
+            cl.demote_from_submitter()
+            self.record({"op": "demote"})
+        self._collect_batches()
+
+    def cancel(self):
+        """`jade cancel-jobs` (without its trailing try-submit-jobs, which the caller runs)"""
+        from jade.jobs.job_submitter import JobSubmitter
+        cl, promoted = self.load_promote()
+        if not promoted:
+            return
+        if cl.is_complete():
+            cl.demote_from_submitter()
+            self.record({"op": "demote"})
+            return
+        JobSubmitter.load(self.out).cancel_jobs(cl)
+        self.record({"op": "mark_canceled"})
+        cl.demote_from_submitter()
+        self.record({"op": "demote"})
+        for b in self.batches.values():
+            if self.fake.jobs.get(b["id"], {}).get("state") == "CANCELLED":
+                b["left"] = []
+
+    def resubmit(self, failed=True, missing=True, successful=False):
+        """`jade resubmit-jobs` with the given options, through the command's own helper functions"""
+        import jade.cli.resubmit_jobs as rs
+        from jade.jobs.job_submitter import JobSubmitter
+        cl, promoted = self.load_promote()
+        if not cl.is_complete():
+            if promoted:
+                cl.demote_from_submitter()
+                self.record({"op": "demote"})
+            return False
+        before = self.snaps[-1]
+        rerun = rs._get_jobs_to_resubmit(cl, self.out, failed, missing, successful)
+        upd = rs._update_with_blocking_jobs(rerun, self.out)
+        rs._reset_results(self.out, rerun)
+        cl.prepare_for_resubmission(rerun, upd)
+        partial = any(j["state"] == "not_submitted" and j["name"] not in rerun for j in before["jobs"])
+        self.record({"op": "resubmit", "rerun": sorted(rerun, key=idx), "upd": {n: sorted(b, key=idx) for n, b in upd.items()},
+                     "options": {"failed": failed, "missing": missing, "successful": successful}, "partial": partial})
+        self._instrument(cl)
+        mgr = JobSubmitter.load(self.out)
+        self._guard(lambda: mgr.submit_jobs(cl))
+        if self.error is None:
+            cl.demote_from_submitter()
+            self.record({"op": "demote"})
+        self._collect_batches()
+        return True
+
+    def _collect_batches(self):
+        for ev in self.fake.log:
+            if ev[0] == "sbatch":
+                m = re.search(r"_batch_(\d+)\.sh$", ev[2])
+                k = int(m.group(1))
+                if k not in self.batches:
+                    data = json.load(open(os.path.join(self.out, f"config_batch_{k}.json")))
+                    names_ = [j["name"] for j in data["jobs"]]
+                    self.batches[k] = {"jobs": names_, "left": list(names_), "id": ev[1], "failed": set()}
+
+    def nodes_work(self, p_finish=0.6, p_fail=0.4, p_die=0.05):
+        """compute nodes make progress: results appended to the node result files of their batch"""
+        from jade.jobs.results_aggregator import ResultsAggregator
+        from jade.result import Result
+        from jade.enums import JobCompletionStatus
+        deps = {j["name"]: set(j["deps"]) for j in self.spec}
+        cancel = {j["name"]: j["cancel"] for j in self.spec}
+        for k, b in sorted(self.batches.items()):
+            if self.fake.jobs[b["id"]]["state"] not in ("PENDING", "RUNNING"):
+                continue
+            self.fake.jobs[b["id"]]["state"] = "RUNNING"
+            if self.rng.random() < p_die:
+                self.fake.jobs[b["id"]]["state"] = "GONE"     # walltime / node failure: the rest never reports
+                self.events.append(("batch-died", k, list(b["left"])))
+                continue
+            while b["left"] and self.rng.random() < p_finish:
+                n = b["left"].pop(0)
+                if cancel[n] and deps[n] & b["failed"]:
+                    res = Result(n, 1, JobCompletionStatus.CANCELED, 0.0, hpc_job_id=b["id"])
+                    b["failed"].add(n)
+                else:
+                    rc = 1 if self.rng.random() < p_fail else 0
+                    if rc:
+                        b["failed"].add(n)
+                    res = Result(n, rc, JobCompletionStatus.FINISHED, 1.0, hpc_job_id=b["id"])
+                ResultsAggregator.append(self.out, res, batch_id=k)
+            if not b["left"]:
+                self.fake.jobs[b["id"]]["state"] = "GONE"
+
+
+def run_submission(rng, tmp, spec=None, sc=None, script=None, max_procs=10):
+    """-> dict(spec, scenario, ops, snaps, rows_after, error, events).  `script`: list of steps
+    ("work" | "try" | "cancel" | ("resubmit", failed, missing, successful)); random if None."""
+    if spec is None:
+        spec, sc = gen_submission_scenario(rng)
+    sub = Submission(spec, sc, tmp, rng)
+    try:
+        sub.first_round()
+        steps = list(script) if script is not None else None
+        n = 0
+        resubmits = 0
+        while sub.error is None and n < max_procs:
+            n += 1
+            if steps is not None:
+                if not steps:
+                    break
+                st = steps.pop(0)
+            else:
+                done = sub.snaps[-1]["is_complete"]
+                r = rng.random()
+                if done:
+                    if resubmits >= 2 or r < 0.25:
+                        break
+                    st = ("resubmit", rng.random() < 0.85, rng.random() < 0.8, rng.random() < 0.2)
+                elif r < 0.04:
+                    st = "cancel"
+                elif r < 0.5:
+                    st = "work"
+                else:
+                    st = "try"
+            if st == "work":
+                sub.nodes_work()
+            elif st == "try":
+                if steps is None:
+                    sub.nodes_work()
+                sub.try_submit()
+            elif st == "cancel":
+                sub.cancel()
+            else:
+                resubmits += 1
+                sub.resubmit(*st[1:])
+        return {"spec": spec, "scenario": sc, "ops": sub.ops, "snaps": sub.snaps, "rows_after": sub.rows_after,
+                "error": sub.error, "events": sub.events}
+    finally:
+        sub.close()
+
+
+def directed_submissions():
+    """(label, spec, scenario, script)"""
+    J = lambda n, deps=(), cancel=False: {"name": n, "deps": list(deps), "cancel": cancel}
+    mk = lambda spec, size, nodes, tr=True: {"jobs": [dict(j, group="g") for j in spec],
+                                             "groups": [{"name": "g", "size": size, "try": tr}], "max_nodes": nodes}
+    two = [J("j1"), J("j2")]
+    chain = [J("j1"), J("j2", ["j1"], True), J("j3", ["j2"], True), J("j4", ["j1"])]
+    return [
+        # cancel while j2 was never submitted, forced completion, then `resubmit-jobs --no-missing`
+        ("cancel-then-resubmit-no-missing", two, mk(two, 1, 1), ["cancel", "try", ("resubmit", True, False, False)]),
+        ("cancel-then-resubmit-default", two, mk(two, 1, 1), ["cancel", "try", ("resubmit", True, True, False)]),
+        ("chain-to-completion-and-resubmit", chain, mk(chain, 2, None),
+         ["work", "try", "work", "try", "work", "try", "work", "try", "try", ("resubmit", True, True, False), "work", "try", "work", "try"]),
+    ]
